@@ -890,6 +890,21 @@ pub fn run(tier: Tier) -> i32 {
         extra: vec![],
     });
 
+    // projection during creation: the sites handed out by the reader dropped and weighted (shared with C11)
+    {
+        let (n, viols) = super::c11::scripts_for("C03", "projected-weights", tier);
+        for (k, w, j) in viols {
+            rep.violation(k, w, j);
+        }
+        rep.part(Part {
+            name: "lib: projected sites dropped and weighted".into(),
+            evaluations: n,
+            nontrivial: n,
+            note: "every sequence of 1..3 (thorough 4) symbols over {six record kinds, a change of the column layout} under five projection set-ups x {add, drop, weight -1, weight 0.5, weight 3 then 2}: projecting during creation adds each row's own hypergeometric contribution times its weight".into(),
+            exhaustive: true,
+            extra: vec![],
+        });
+    }
     // (v) CLI
     let scratch = Scratch::new("c03");
     let cli_shapes: Vec<Vec<usize>> = vec![vec![7], vec![3, 5], vec![5, 3, 3], vec![3, 3, 3, 3], vec![2, 4], vec![9, 1]];
@@ -1062,6 +1077,7 @@ pub fn replay(case: &J) -> Option<Vec<String>> {
                 other => vec![format!("C03|lib|projection-depends-on-previous-call :: {other:?}, expected {:?}", expect.data)],
             })
         }
+        "c03-script" => super::c11::replay_script(case),
         "c03-cross" => {
             let scratch = Scratch::new("c03r");
             let b = |k: &str| matches!(case.get(k), Some(J::Bool(true)));
